@@ -4,6 +4,7 @@ import (
 	"fmt"
 	"runtime"
 	"runtime/debug"
+	"strings"
 	"testing"
 	"testing/synctest"
 )
@@ -12,8 +13,17 @@ import (
 // f must not touch rapid; every goroutine it starts must have exited when it returns. A panic on f's goroutine is
 // returned as a verdict text starting with "PANIC:". Two GC cycles afterwards empty sync.Pools so that pooled
 // timers created in this bubble are never reused in the next one.
-func vfBubble(t *testing.T, f func() string) string {
+func vfBubble(t *testing.T, f func() string) (verdict string) {
 	var out string
+	defer func() {
+		// synctest itself panics on the caller's goroutine when the bubble deadlocks (e.g. the main bubble goroutine
+		// returned while other bubble goroutines are still durably blocked). Report it as a verdict with all stacks.
+		if r := recover(); r != nil {
+			buf := make([]byte, 1<<20)
+			n := runtime.Stack(buf, true)
+			verdict = fmt.Sprintf("BUBBLE-PANIC: %v\n%s", r, vfBubbleStacks(string(buf[:n])))
+		}
+	}()
 	synctest.Test(t, func(st *testing.T) {
 		defer func() {
 			if r := recover(); r != nil {
@@ -29,3 +39,20 @@ func vfBubble(t *testing.T, f func() string) string {
 
 // vfSettle waits until every other goroutine of the bubble is durably blocked.
 func vfSettle() { synctest.Wait() }
+
+// vfBubbleStacks keeps only goroutines that belong to a synctest bubble (their header mentions "synctest").
+func vfBubbleStacks(all string) string {
+	var keep []string
+	for _, g := range strings.Split(all, "\n\n") {
+		if strings.Contains(g, "synctest") {
+			if len(g) > 3000 {
+				g = g[:3000]
+			}
+			keep = append(keep, g)
+		}
+	}
+	if len(keep) > 12 {
+		keep = keep[:12]
+	}
+	return strings.Join(keep, "\n\n")
+}
